@@ -87,6 +87,36 @@ CLAIMED.update({
     ),
 })
 
+CLAIMED.update({
+    "C02": (
+        "order-tag and alias analysis by abstract interpretation (sequences with index terms over input families, permutation symbols, inverse recognition)",
+        "other",
+        "On every argument class the returned value is Seq[k -> Seq[p -> the object passed at teams[k][p]]] with the input's symbolic lengths: every sort is undone with its own "
+        "tenet, every rebuild is order preserving, no player is dropped/duplicated/moved; ids and names are written only by constructor/copy; the passed objects are the returned "
+        "ones (or untouched); the limit_sigma cap pairs each player with its own pre-inflation value. Decides position correspondence for all rank vectors at once; numbers are not decided.",
+        "Trusted: osv/ai Seq/index-term abstraction; list.sort/sorted as a stable permutation of positions; zip(*rows) transposition; deepcopy preserves positions. "
+        "Assumes the passed rating objects are pairwise distinct.",
+        "DESIGN.md §5 C02",
+    ),
+    "C04": (
+        "order-tag analysis + fold recognition + index-use discipline (value numbering of loop positions) by abstract interpretation",
+        "other",
+        "Structural necessary conditions of equivariance: the update kernel receives the teams as the image of one stable ascending key-only sort by exactly the given values "
+        "(input order when none), no reverse/key-less sort, team statistics are additive commutative folds over all members, loop positions never enter arithmetic, ordering "
+        "comparisons or stored numbers outside five frozen exceptions. Narrow claim: numerical equivariance itself is not decided.",
+        "Trusted: osv/ai; lemma L-SORT (two stable sorts by the same keys are aligned). Frozen exceptions listed in osv/rules/c04.py with reasons.",
+        "DESIGN.md §5 C04",
+    ),
+    "C10": (
+        "value-numbered term inspection (symmetric-by-construction) + interval abstract interpretation",
+        "other",
+        "predict_draw's returned term is built only from len(teams), additive folds over all teams / all ordered pairs / all members, parameters and constants, hence a function of the "
+        "multiset of teams; it is finite and >= 0 and every partial operation is inside its domain on the input box. Narrow claim: the upper bound 1 and the monotonicity clauses are not decided.",
+        "Trusted: osv/ai value numbering and interval domain, NormalDist axioms (cdf in [0,1] monotone, inv_cdf defined on (0,1)).",
+        "DESIGN.md §5 C10",
+    ),
+})
+
 NOT_APPLICABLE = {
     "C01": "numeric equality (1e-9) with published closed forms over a continuous input box: no sound static "
     "argument in reach; its structural necessary conditions are decided under C02/C03/C05/C06/C07/C16/C19",
